@@ -10,9 +10,14 @@
           pair (observed, reverted) reproduces the predicted distribution.
    T12.3  chain rule for two time points with scalar observations: quadratic
           form and determinant of the 2 x 2 joint covariance factor as
-          marginal x conditional.  The N-point chain rule is NOT proved in
-          general (the check compares the recursion with the direct joint
-          density exactly for every generated N). *)
+          marginal x conditional (chain_rule_two_points); and, at the level of
+          the model, the two density terms of the time-series loss on two time
+          points (one scalar-observation block, arbitrary state dimension and
+          backward conditional) are the marginal and the conditional term of the
+          joint assembled from the Markov factorisation
+          (two_point_loss_terms_are_joint_density).  The N-point chain rule is
+          NOT proved in general (the check compares the recursion with the
+          direct joint density exactly for every generated N). *)
 From Coq Require Import List Arith Lia Bool ZArith Field Ring.
 From PD Require Import Base.Field Base.Matrix Base.Solve Model.Gauss Model.Poly
   Model.Prior Model.Solver Model.Loss Proofs.GaussProofs Proofs.FilterProofs.
